@@ -49,7 +49,8 @@ def write_layout_src(info, path):
         return "<<" + ", ".join('"%s"' % x for x in xs) + ">>"
     b = lambda x: "TRUE" if x else "FALSE"
     os.makedirs(os.path.dirname(path), exist_ok=True)
-    open(path, "w").write("""----------------------------- MODULE LayoutSrc -----------------------------
+    tmp = "%s.%d.tmp" % (path, os.getpid())
+    open(tmp, "w").write("""----------------------------- MODULE LayoutSrc -----------------------------
 \\* generated from /repo/src/lib.rs by lib/srcparse.py
 EvenFields == %s
 OddFields == %s
@@ -59,3 +60,4 @@ BaseIsZeroLenArray == %s
 WrapperTransparent == %s
 =============================================================================
 """ % (seq(info["even"]), seq(info["odd"]), b(info["even_repr_c"]), b(info["odd_repr_c"]), b(info["base"].replace(" ", "") == "[T;0]"), b(info["transparent"])))
+    os.replace(tmp, path)
